@@ -60,6 +60,9 @@ var w9World = driver.World{
 func w9pick[T any](r *rand.Rand, xs ...T) T { return xs[r.IntN(len(xs))] }
 
 func w9Gen(r *rand.Rand, prop, tier string) *simrt.Case {
+	if prop == "C21" {
+		return w9GenSnapshot(r)
+	}
 	c := &simrt.Case{Config: map[string]int64{}}
 	c.Config["spec_seed"] = int64(r.Uint32())
 	c.Config["map_seed"] = int64(r.Uint32())
@@ -177,8 +180,12 @@ func w9Run(t *testing.T, c *simrt.Case, prop string, keepTrace bool) simrt.Resul
 	w := &w9{c: c}
 	res := simrt.Run(t, c, keepTrace, func(s *simrt.Sim) {
 		w.sim = s
-		w.etcd = simetcd.NewServer(s, 300)
+		w.etcd = simetcd.NewServer(s, c.Cfg("etcd_lat_us", 300))
 		simetcd.Install(w.etcd)
+		if c.Cfg("c21", 0) == 1 {
+			w.runSnapshot()
+			return
+		}
 		s.Spawn("operator", "operator", true, w.run)
 	}, nil)
 	simetcd.Install(nil)
